@@ -3,7 +3,7 @@
 import sys,re,json,os
 rows={}
 for f in sys.argv[1:]:
-    for l in open(f):
+    for l in open(f, errors='replace'):
         m=re.match(r'MUTANT (C\d+-\d+) check=(C\d+) tier=(\w+) exit=(\d+): (\d+) VIOLATION lines;\s*(?:kind=(\S+))?',l)
         if m: rows[(m.group(1),m.group(2))]=(m.group(4),m.group(5),m.group(6) or '')
         elif 'patch does not apply' in l or 'does not build' in l:
